@@ -8,7 +8,7 @@ import subprocess
 import sys
 
 VERIF = os.path.dirname(os.path.dirname(os.path.abspath(__file__)))
-REPO = "/repo"
+REPO = os.environ.get("FV_REPO", "/repo")
 muts = json.load(open(os.path.join(VERIF, "selftest", "mutants.json")))
 sel = sys.argv[1:]
 results = []
@@ -24,7 +24,10 @@ for m in muts:
     try:
         open(path, "w").write(src.replace(m["old"], m["new"]))
         outs = {}
-        for pid in m["props"]:
+        plist = m["props"]
+        if m.get("kind") == "neutral" and os.environ.get("FV_NEUTRAL_ALL") == "1":   # a neutral edit must leave *every* check silent
+            plist = sorted(p[:-3] for p in os.listdir(os.path.join(VERIF, "props")) if p.startswith("C") and p.endswith(".py"))
+        for pid in plist:
             p = subprocess.run([os.path.join(VERIF, "check"), pid], capture_output=True, text=True)
             outs[pid] = (p.returncode, [l for l in p.stdout.splitlines() if l.startswith("VIOLATION") or l.startswith("  rule=") or l.startswith("UNDECIDED")])
     finally:
